@@ -5,9 +5,11 @@
   Every operation returns `Option`: `none` stands for "the Go code panics".
   Strings are `List Char` (ASCII in every case the harness produces).
 -/
+import Mixin.Facts.Generated
 namespace Mixin.Amount
 
-def precision : Nat := 8
+/-- `common.Precision`, regenerated from the source tree on every run -/
+def precision : Nat := Mixin.Facts.Gen.common_Precision
 def maxInt32 : Int := 2147483647
 def minInt32 : Int := -2147483648
 
